@@ -599,3 +599,61 @@ mut("c04-benign-tracing-in-arms", "C04", ST,
             },
         };""",
     None, "extra logging in a dispatch arm")
+
+# ---- C11 -------------------------------------------------------------------------------------------------
+PMOD = "src/parser/mod.rs"
+LIB = "src/lib.rs"
+mut("c11-abort-keeps-params-state", "C11", RQ,
+    """                let initial = HeaderState.into_skip(head.content_length, head.padding_length);
+                Continue((data, initial))""",
+    """                let initial = self.into_skip(head.content_length, head.padding_length);
+                Continue((data, initial))""",
+    "R11.1/params/abort", "aborted request keeps being parsed")
+mut("c11-abort-reply-overloaded", "C11", RQ,
+    """                out.extend(fcgi::body::EndRequest {
+                    protocol_status: fcgi::ProtocolStatus::RequestComplete,
+                    app_status: 0,
+                }.to_record(req_id));""",
+    """                out.extend(fcgi::body::EndRequest {
+                    protocol_status: fcgi::ProtocolStatus::Overloaded,
+                    app_status: 0,
+                }.to_record(req_id));""",
+    "R11.1/params/abort", "wrong protocol status for an aborted request")
+mut("c11-stream-abort-consumes-header", "C11", ST,
+    """                // Report AbortRequest record to caller, but keep header
+                // in self.buffer for subsequent calls.
+                return Err(Error::AbortRequest);""",
+    """                self.raw_start = past_head;
+                return Err(Error::AbortRequest);""",
+    "R11.2/stream/abort", "abort reported once only; later reads continue past it")
+mut("c11-abort-maps-to-other", "C11", PMOD,
+    """            Error::AbortRequest => io::ErrorKind::ConnectionAborted.into(),""",
+    """            Error::AbortRequest => io::ErrorKind::Interrupted.into(),""",
+    "R11.3/io-error-table", "handler cannot recognise an abort")
+mut("c11-abort-status-one", "C11", LIB,
+    """    pub const ABORT: Self = Self::Complete(u32::from_be_bytes(*b"ABRT"));""",
+    """    pub const ABORT: Self = Self::Complete(1);""",
+    "R11.4/abort-constant", "abort status not distinguished")
+mut("c11-close-does-not-tolerate-abort", "C11", A,
+    """            Err(e) if e.kind() == io::ErrorKind::ConnectionAborted => { /* Ignore */ },
+            Err(e) => return Err(e),
+        }
+        self.parser.set_stream(None)""",
+    """            Err(e) => return Err(e),
+        }
+        self.parser.set_stream(None)""",
+    "R11.5/tolerated-errors", "no EndRequest after an abort")
+mut("c11-header-answers-stale-abort", "C11", RQ,
+    """        match head.rtype {
+            fcgi::RecordType::BeginRequest => { /* Handled below */ },""",
+    """        match head.rtype {
+            fcgi::RecordType::BeginRequest => { /* Handled below */ },
+            fcgi::RecordType::AbortRequest => {
+                out.extend(fcgi::body::EndRequest {
+                    protocol_status: fcgi::ProtocolStatus::RequestComplete,
+                    app_status: 0,
+                }.to_record(head.request_id));
+                let skip = self.into_skip(head.content_length, head.padding_length);
+                return Continue((&mut data[fcgi::RecordHeader::LEN..], skip));
+            },""",
+    "R11.6/header/abort-row", "second EndRequest for an already finished request")
